@@ -745,10 +745,19 @@ fn generate_output(
 	let mut cmd = cmd.spawn()?;
 	if let Some(full_ir) = generated_ir
 	{
-		cmd.stdin
+		let written = cmd
+			.stdin
 			.as_mut()
 			.context("failed to pipe")?
-			.write_all(full_ir.as_bytes())?;
+			.write_all(full_ir.as_bytes());
+		match written
+		{
+			Ok(()) => (),
+			// The backend may stop reading whenever it likes;
+			// whether it succeeded is for its exit status to tell.
+			Err(e) if e.kind() == std::io::ErrorKind::BrokenPipe => (),
+			Err(e) => return Err(e.into()),
+		}
 	}
 	let status = cmd.wait()?;
 	if is_lli
